@@ -50,7 +50,7 @@ type chooser interface {
 
 type rapidChooser struct{ rapidSrc }
 
-func (c rapidChooser) Bool(l string) bool      { return rapid.Bool().Draw(c.t, l) }
+func (c rapidChooser) Bool(l string) bool       { return rapid.Bool().Draw(c.t, l) }
 func (c rapidChooser) Pick(l string, n int) int { return rapid.IntRange(0, n-1).Draw(c.t, l) }
 func (c rapidChooser) Weighted(l string, w ...int) int {
 	return weighted(rapid.IntRange(0, sum(w)-1).Draw(c.t, l), w)
@@ -59,7 +59,7 @@ func (c rapidChooser) Weighted(l string, w ...int) int {
 type seedChooser struct{ *issuer.SeedSource }
 
 func (c seedChooser) Bool(string) bool                { return c.Intn(2) == 1 }
-func (c seedChooser) Pick(_ string, n int) int         { return c.Intn(n) }
+func (c seedChooser) Pick(_ string, n int) int        { return c.Intn(n) }
 func (c seedChooser) Weighted(_ string, w ...int) int { return weighted(c.Intn(sum(w)), w) }
 
 func sum(w []int) int {
@@ -183,6 +183,35 @@ func runPA(in input) (o outcome) {
 	return o
 }
 
+// heldDGs returns the raw data-group files the Document actually holds (a
+// constructor may decide that an input is "no file", e.g. empty bytes).
+func heldDGs(doc *document.Document) map[int][]byte {
+	l := doc.Mf.Lds1
+	m := map[int][]byte{}
+	put := func(n int, present bool, raw []byte) {
+		if present {
+			m[n] = raw
+		}
+	}
+	put(1, l.Dg1 != nil, rawOf(l.Dg1 != nil, func() []byte { return l.Dg1.RawData }))
+	put(2, l.Dg2 != nil, rawOf(l.Dg2 != nil, func() []byte { return l.Dg2.RawData }))
+	put(7, l.Dg7 != nil, rawOf(l.Dg7 != nil, func() []byte { return l.Dg7.RawData }))
+	put(11, l.Dg11 != nil, rawOf(l.Dg11 != nil, func() []byte { return l.Dg11.RawData }))
+	put(12, l.Dg12 != nil, rawOf(l.Dg12 != nil, func() []byte { return l.Dg12.RawData }))
+	put(13, l.Dg13 != nil, rawOf(l.Dg13 != nil, func() []byte { return l.Dg13.RawData }))
+	put(14, l.Dg14 != nil, rawOf(l.Dg14 != nil, func() []byte { return l.Dg14.RawData }))
+	put(15, l.Dg15 != nil, rawOf(l.Dg15 != nil, func() []byte { return l.Dg15.RawData }))
+	put(16, l.Dg16 != nil, rawOf(l.Dg16 != nil, func() []byte { return l.Dg16.RawData }))
+	return m
+}
+
+func rawOf(present bool, f func() []byte) []byte {
+	if !present {
+		return nil
+	}
+	return f()
+}
+
 // runVerify is the second observation point: SignedData.Verify of the parsed
 // SOD against the full store.
 func runVerify(o outcome) (ok bool, chain [][]byte, msg string) {
@@ -208,7 +237,7 @@ type genuine struct {
 	EContent    []byte
 	DSTBS       []byte
 	DSDER       []byte
-	HashAlg     string   // LDS hash (SOD only)
+	HashAlg     string // LDS hash (SOD only)
 	List        map[int][]byte
 	SigningTime *time.Time
 	Country     string
